@@ -25,15 +25,15 @@ CHECKS = {
    note="as C09",
    tech="deterministic discrete-event simulation with network fault injection; reference-model oracle; tape shrinking"),
  "C11": dict(cat="exploration", engine="des-tcp", ref="4 C11",
-   text="seeded deterministic simulation of many connections (FIN, RST, stalled, re-opened 4-tuples) with network faults, backward clock jumps, closing and non-closing age-based flushes, page limits and a final flush-all against both real assemblers; after every event the lifecycle (completion exactly once, no data after it), leak (pool and page cache empty after flush-all), page-limit and age-flush invariants are audited.",
-   note="trusted: harness model; pages in use and pool size are read through verif-tagged accessors; the page-limit bound is audited only in runs whose streams keep no bytes",
+   text="seeded deterministic simulation of many connections (FIN, RST, stalled, re-opened 4-tuples) with network faults, backward clock jumps, closing and non-closing age-based flushes, page limits and a final flush-all against both real assemblers; after every event the lifecycle (completion exactly once, no data after it), leak (pool and page cache empty after flush-all), page-limit (out-of-order pages counted by walking the queues, also in runs whose streams keep bytes) and age-flush invariants (flushes with equal, different and absent data/closing cut-offs) are audited.",
+   note="trusted: harness model; pages in use and pool size are read through verif-tagged accessors; pages in use, queued and kept pages are read through verif-tagged accessors that walk the lists",
    tech="deterministic discrete-event simulation with fault injection; invariant audit after every event"),
  "C13": dict(cat="exploration", engine="des-defrag", ref="4 C13",
    text="seeded deterministic simulation of fragmenting senders (headers 20-60 bytes, payloads up to the maximum 65535 minus header, cuts at multiples of 8), a reordering/duplicating/dropping network with key reuse, a hostile injector (conflicting overlaps, holes, undersized, beyond 65535, complete sets that are oversize only with their header, >8192 fragments) and discard timers on a simulated clock in front of the real IPv4 defragmenter (and fragments in any order with duplicates in front of the IPv6 one); a per-key model of the received set decides at every call whether nothing, an error or exactly the original datagram must come back, and every returned byte must have been placed at its offset by a received fragment.",
    note="trusted: harness fragmenter and per-key model; fragments are built field by field with consistent Length; IPv6 behaviour after completion and IPv6 discard (reads the real clock) are not checked",
    tech="deterministic discrete-event simulation with network and hostile-input fault injection; reference-model oracle"),
  "C14": dict(cat="fault_enumeration", engine="sim-disk", ref="4 C14",
-   text="seeded captures are written by the real pcap (us/ns) and pcapng writers into a simulated file; the round trip is checked through a chunked simulated stream with the copying and zero-copy calls (and by libpcap for a seeded subset), and then the crash space is enumerated: the file is cut at every byte offset (exhaustive for files up to 2 KiB; all write boundaries +-2 plus a seeded sample beyond) and the reader must return exactly the wholly contained packets and then an EOF-class error. Exhaustive over cut positions per file; the files are seeded samples.",
+   text="seeded captures are written by the real pcap (us/ns) and pcapng writers into a simulated file; every written pcapng file is walked at byte level (block framing), the round trip is checked through a chunked simulated stream with the copying and zero-copy calls - whatever the copying call returned is examined again after all later reads - (and by libpcap for a seeded subset), and then the crash space is enumerated: the file is cut at every byte offset (exhaustive for files up to 2 KiB; all write boundaries +-2 plus a seeded sample beyond) and the reader must return exactly the wholly contained packets and then an EOF-class error. Exhaustive over cut positions per file; the files are seeded samples.",
    note="trusted: harness packet generator and comparison; block boundaries are taken from the simulated file's length after each flushed packet; libpcap is a second reader for single-link-type files only",
    tech="deterministic simulation of file and stream with crash-point enumeration (cut at every byte) and short-read injection"),
  "C15": dict(cat="exploration", engine="sim-disk", ref="4 C15",
@@ -49,7 +49,7 @@ CHECKS = {
    note="trusted: harness actors and the element-by-element read model; single consumer goroutine",
    tech="deterministic simulation in a synctest bubble with gated actors; close-point and read-size fault injection; deadlock detection by durable blocking"),
  "C02": dict(cat="exploration", engine="coop", ref="4 C02",
-   text="2-4 real goroutines run under the cooperative scheduler, one at a time, over a seeded corpus (harness-built Ethernet/Dot1Q/IPv4/IPv6/TCP/UDP/ICMP/GRE/ARP/DNS query and answer stacks, the 147 packet byte arrays of gopacket's own layer tests with their first-layer types, near-duplicates, truncations, bit flips): decoders compare every NewPacket result with a quiet-state reference decode of the same bytes and options (history and schedule independence), readers call the read-only accessors, String/Dump and VerifyChecksums on eager packets published by other goroutines and must get the answers recorded from a twin decode of the same bytes (the shared packet itself is handed over untouched, optionally after SetNetworkLayerForChecksum so that TCP/UDP checksums are really verified), and the input buffers must be unchanged; the same simulation is run in a -race build whose scheduler hand-off is invisible to the race detector, so any write to shared packet memory is reported although the goroutines never ran simultaneously.",
+   text="2-4 real goroutines run under the cooperative scheduler, one at a time, over a seeded corpus (harness-built Ethernet/Dot1Q/IPv4/IPv6/TCP/UDP/ICMP/GRE/ARP/DNS query and answer stacks, the 147 packet byte arrays of gopacket's own layer tests with their first-layer types, near-duplicates, truncations, bit flips): decoders compare every NewPacket result with a quiet-state reference decode of the same bytes and options (history and schedule independence), readers call the read-only accessors, String/Dump and VerifyChecksums on eager packets published by other goroutines and must get the answers recorded from a twin decode of the same bytes (the shared packet itself is handed over untouched, optionally after SetNetworkLayerForChecksum so that TCP/UDP checksums are really verified), and the input buffers must be unchanged; the same simulation is run in a -race build whose scheduler hand-off is invisible to the race detector, so any write to shared packet memory is reported although the goroutines never ran simultaneously; a third unit runs every simulated run in a process of its own with nothing decoded or rendered beforehand, built against the lock-instrumented copy of the repository, so that process-lifetime state (tables, caches) is first used by concurrent workers interleaved at its own lock sites, and compares their answers with each other and with a reference taken after the run.",
    note="trusted: harness packet generator, signature renderer and hand-off (one atomic pointer per published packet); schedules are explored at API-call granularity, a torn intermediate value inside one call cannot be produced; the race detector keeps a bounded history per word",
    tech="deterministic cooperative scheduling of real goroutines with a race-detector-invisible hand-off; reference-decode oracle"),
  "C04": dict(cat="exploration", engine="coop", ref="4 C04",
@@ -57,7 +57,7 @@ CHECKS = {
    note="trusted: as C02; which pool block a decode gets is decided by sync.Pool (per-P caches, random drops under -race) and is not owned, verdicts do not depend on it",
    tech="deterministic cooperative scheduling of real goroutines with a race-detector-invisible hand-off; ownership/aliasing oracle after every step"),
  "C12": dict(cat="exploration", engine="coop", ref="4 C12",
-   text="2-3 assembler goroutines plus an optional flusher share one real StreamPool (both packages) under the cooperative scheduler: exactly one goroutine runs, each parks at every API call boundary, every stream callback and in front of every lock acquisition of the package (verif-tagged hook; the released worker tries the lock first so blocked workers are known and deadlock is a verdict), and the next runner is drawn from the tape. The merged history is checked for panics, deadlock, a single live stream per connection, non-overlapping callbacks, the in-order delivery model for directions fed by one assembler, cross-stream deliveries and exactly-once completion; -race builds of both packages run the same simulation with the hand-off hidden from the race detector.",
+   text="2-3 assembler goroutines plus an optional flusher share one real StreamPool (both packages) under the cooperative scheduler: exactly one goroutine runs, each parks at every API call boundary, every stream callback, in front of every lock acquisition and behind every lock release of the package (hand-placed verif-tagged hooks plus an instrumented scratch copy of the repository in which cmd/instrument puts a verifhook call in front of every x.Lock()/x.RLock() and behind every x.Unlock()/x.RUnlock() statement, so that locks a change adds or moves are covered too; the released worker tries the lock first so blocked workers are known and deadlock is a verdict), and the next runner is drawn from the tape (random pre-emption, PCT-style priorities or injected long stalls, chosen per run). The merged history is checked for panics, deadlock, a single live stream per connection, non-overlapping callbacks, the in-order delivery model for directions fed by one assembler, cross-stream deliveries and exactly-once completion; -race builds of both packages run the same simulation with the hand-off hidden from the race detector.",
    note="trusted: scheduler, hooks (add-only lines in front of lock acquisitions), offline history checker; code between two yield points runs atomically; the race detector keeps a bounded history per word",
    tech="deterministic cooperative scheduling of real goroutines with lock-aware yield hooks and a race-detector-invisible hand-off; offline history oracle"),
 }
